@@ -962,6 +962,37 @@ func (w *Walker) block(st *wstate, b *ssa.BasicBlock, pred *ssa.BasicBlock) {
 	w.instrs(st, b, 0)
 }
 
+func (w *Walker) knownNonNil(v string) bool {
+	switch {
+	case strings.HasPrefix(v, "fmt.Errorf@"), strings.HasPrefix(v, "fmt.Errorf("), strings.HasPrefix(v, "errors.New@"), strings.HasPrefix(v, "errors.New("):
+		return true
+	case strings.HasPrefix(v, "global:"):
+		name := strings.TrimPrefix(v, "global:")
+		i := strings.LastIndex(name, ".")
+		if i < 0 || !strings.HasPrefix(name[i+1:], "Err") {
+			return false
+		}
+		if strings.HasPrefix(name, "io.") {
+			return true
+		}
+		return !w.P.MutableGlobal(name)
+	}
+	return false
+}
+
+// unknownHelper: a repository function that did not exist when the rules were
+// confirmed (an extracted helper) is transparent: it is walked as part of its
+// caller, so extracting code into a new function changes nothing for a rule.
+func unknownHelper(fn *ssa.Function, depth int) bool {
+	if depth > 6 || fn.Parent() != nil || fn.Blocks == nil || len(fn.Blocks) > 80 {
+		return false
+	}
+	if !strings.HasPrefix(fnPkgPath(fn), modPath) {
+		return false
+	}
+	return !knownFuncs[QualName(fn)]
+}
+
 func (w *Walker) isLockCall(name string) (kind string) {
 	switch name {
 	case "(*sync.Mutex).Lock", "(*sync.RWMutex).Lock":
@@ -1167,13 +1198,19 @@ func (w *Walker) branch(st *wstate, b *ssa.BasicBlock, in *ssa.If) {
 				continue
 			}
 		}
+		// values that are never nil: results of fmt.Errorf / errors.New and the
+		// package's immutable error sentinels
+		if atom.Kind == "bool" && strings.HasPrefix(atom.A, "isnil(") && atruth && w.knownNonNil(atom.A[len("isnil("):len(atom.A)-1]) {
+			continue
+		}
 		var ns *wstate
 		if edge == 0 {
 			ns = st.clone()
 		} else {
 			ns = st
 		}
-		if keep {
+		constant := atom.Kind == "bool" && strings.HasPrefix(atom.A, "isnil(") && w.knownNonNil(atom.A[len("isnil("):len(atom.A)-1])
+		if keep && !constant {
 			if !ns.rel.Refine(atom, atruth) {
 				continue
 			}
@@ -1200,7 +1237,7 @@ func (w *Walker) call(st *wstate, b *ssa.BasicBlock, idx int, in *ssa.Call) bool
 	}
 	res := w.canon(st, fr, in)
 	depth := len(st.frames)
-	inline := fn != nil && fn.Blocks != nil && w.Cfg.Inline != nil && w.Cfg.Inline(fn, depth)
+	inline := fn != nil && fn.Blocks != nil && (w.Cfg.Inline != nil && w.Cfg.Inline(fn, depth) || unknownHelper(fn, depth))
 	if inline {
 		for _, f := range st.frames {
 			if f.fn == fn {
